@@ -58,8 +58,10 @@ def boundary_programs():
     add("long-literal", f"hook h;\nparser {{\n  \"{lit}\"; h(); \";\";\n}}\n",
         inputs=[lit.encode() + b";", lit.encode()[:270] + b"!", lit.encode()[:129]])
     # indexing bytes >= 0x80 (char vs uint8_t storage), the index at and around the size
-    add("index-high", "out str[4] hdr;\nout int value = 0;\nout bool big = false;\nout int edge = 0;\nparser {\n  hdr += b/[00-ff][00-ff][00-ff]/;\n  value = [hdr[0] * 256 + hdr[1]];\n  if hdr[0] >= 128 { big = true; }\n  edge = [hdr[2] + hdr[3] * 3 + hdr[4] * 5 + hdr[5] * 7];\n  \";\";\n}\n",
-        inputs=[bytes([0x81, 0x02, 0xfe, 0x3b]), bytes([0x01, 0x90, 0x7f, 0x3b]), bytes([0xff, 0xff, 0x80, 0x3b])])
+    add("index-high", "out str[4] hdr;\nout int value = 0;\nout bool big = false;\nhook high;\nparser {\n  hdr += b/[00-ff][00-ff][00-ff]/;\n  value = [hdr[0] * 256 + hdr[1]];\n  if hdr[2] >= 128 { big = true; high(); \"x\"; } else { \"y\"; }\n  \";\";\n}\n",
+        inputs=[bytes([0x81, 0x02, 0xfe, 0x78, 0x3b]), bytes([0x01, 0x90, 0x7f, 0x79, 0x3b]), bytes([0xff, 0xff, 0x80, 0x78, 0x3b])])
+    add("index-edge", "out str[4] hdr;\nout int edge = 0;\nparser {\n  hdr += b/[00-ff][00-ff][00-ff]/;\n  edge = [hdr[2] + hdr[3] * 3 + hdr[4] * 5 + hdr[5] * 7];\n  \";\";\n}\n",
+        inputs=[bytes([0x81, 0x02, 0xfe, 0x3b]), bytes([0xff, 0xff, 0x80, 0x3b])])
     # a break two conditional levels deep
     add("nested-cond-break", "out int depth = 0;\nout int n = 0;\nparser {\n  loop {\n    case {\n      \"(\" -> { depth = [depth + 1]; }\n      \")\" -> { if depth > 1 { depth = [depth - 1]; } else { if depth == 1 { n = [n + 1]; break; } } }\n      /[a-z]/ -> { }\n    }\n  }\n  \";\";\n}\n",
         inputs=[b"(a(b)c);", b"());"])
